@@ -27,6 +27,7 @@ def main(argv=None):
     warnings.simplefilter("ignore")
     seed = int(os.environ.get("VERIF_SEED", "0") or 0)
     if args.cmd == "check":
+        os.environ["VERIF_TIER"] = args.tier
         mod = importlib.import_module(f"checks.{args.pid.lower()}")
         return run_check(mod.main, args.pid, args.tier, seed)
     if args.cmd == "replay":
